@@ -130,6 +130,16 @@ for _pid, _rule in (
     }
 
 
+import suite_imgcli  # noqa: E402
+
+for _pid, _rel in (("C18", lambda c: c["kind"] in ("cli-valid", "cli-fixture", "cli-option")), ("C19", lambda c: True)):
+    PROPS[_pid]["suites"].append({"name": "imgcli", "relevant": _rel, "oracle": suite_imgcli.oracle,
+                                  "classify": suite_imgcli.classify})
+    PROPS[_pid]["rule"] += ("; imgcli: a sample of those cases (3 per format and kind, thorough 25) plus MAX header-error probes "
+                            "with and without -i, decoded by the real start(argv) in a fresh interpreter as file->file, "
+                            "file->stdout and stdin->stdout; each run must agree with the in-process convert() answer (same "
+                            "bytes, or a reported failure: non-zero exit status / MAX output file removed)")
+
 # --------------------------------------------------------------------------- transpiler
 
 import oracles_b09 as OB  # noqa: E402
